@@ -65,8 +65,8 @@ impl Space {
                         loc: anchor
                             + DVec3 {
                                 x: i as f64 * c_width.x,
-                                y: j as f64 * c_width.x,
-                                z: k as f64 * c_width.x,
+                                y: j as f64 * c_width.y,
+                                z: k as f64 * c_width.z,
                             },
                         width: c_width,
                         offset: 0,
